@@ -329,6 +329,25 @@ def queries(kind, obj, ps, part, case):
                 gs = set(gl)
                 if (mr, lg) == (True, True):
                     got_default = gs
+                    if not inh and not desc:
+                        # the same question with every option left at its default (and through the object's method): options default to the plain lookup
+                        part.transitions += 1
+                        try:
+                            plain = set(str(x) for x in (MK.get_markings(obj, sels) if sels is not None else MK.get_markings(obj)))
+                            if sels is not None:
+                                from stix2.markings import granular_markings as GM      # the granular module's own function, options at their defaults
+                                if set(str(x) for x in GM.get_markings(obj, sels)) != plain:
+                                    plain = {"granular_markings.get_markings differs"}
+                            viam = set(str(x) for x in (obj.get_markings(sels) if sels is not None else obj.get_markings())) if hasattr(obj, "get_markings") else plain
+                            im_plain = {m: bool(MK.is_marked(obj, m, sels) if sels is not None else MK.is_marked(obj, m)) for m in marks}
+                            im_flags = {m: bool(MK.is_marked(obj, m, sels, inherited=False, descendants=False)) for m in marks}
+                        except InvalidSelectorError:
+                            plain = viam = gs
+                            im_plain = im_flags = {}
+                        if plain != gs or viam != gs or im_plain != im_flags:
+                            part.violation("C07/defaults-differ-from-plain-lookup/%s" % ("get_markings" if plain != gs or viam != gs else "is_marked"),
+                                           "a query with its options left at their defaults does not answer like inherited=False, descendants=False, marking_ref=True, lang=True",
+                                           dict(case, query=["get/is_marked with defaults", sels]), sorted(gs), {"function": sorted(plain), "method": sorted(viam), "is_marked": im_plain != im_flags})
                 e1 = MS.get(ps, sels, inh, desc, mr, lg, object_level_filtered=False)
                 e2 = MS.get(ps, sels, inh, desc, mr, lg, object_level_filtered=True)
                 part.outcome("get:" + ("nonempty" if gs else "empty"))
